@@ -187,11 +187,13 @@ fn resolve_once(
 
         if let asm::AstAny::Symbol(ast_symbol) = node
         {
+            // A label must sit on an address boundary, here as
+            // anywhere else, once positions are no longer guesses
             let cur_address = inner_ctx.eval_address(
                 query.report,
                 query.span,
                 defs,
-                true)?;
+                inner_ctx.can_guess())?;
 
             let new_value = expr::Value::make_integer(cur_address);
             
